@@ -130,9 +130,9 @@ def replay_reject(name, args):
     p = os.path.join(d, 'replay.py')
     with open(p, 'w') as f:
       f.write(kern.PRELUDE % os.environ.get('VERIF_REPO', '/repo') + reject_source()[0] +
-              '\nimport sys\nsys.exit(0 if %s(%s) else 1)\n' % (name, args))
+              '\nimport sys\nsys.exit(0 if %s(%s) else 7)\n' % (name, args))
     r = subprocess.run([sys.executable, p], stdout=subprocess.PIPE, stderr=subprocess.STDOUT, text=True)
-    return r.returncode == 1, 'import acceptance differs from the documented rejection rules for %s(%s)' % (name, args), {'call': '%s(%s)' % (name, args), 'output': r.stdout[-500:]}
+    return r.returncode == 7, 'import acceptance differs from the documented rejection rules for %s(%s)' % (name, args), {'call': '%s(%s)' % (name, args), 'output': r.stdout[-500:]}
   finally:
     import shutil
     shutil.rmtree(d, ignore_errors=True)
